@@ -12,6 +12,7 @@ import VaxisModel.Lemmas.SgrTotal
 import VaxisModel.Lemmas.SgrLinksFull
 import VaxisModel.Lemmas.Parser
 import VaxisModel.Props.C18
+import VaxisModel.Props.C02
 
 namespace VaxisModel.Props.C18Total
 open VaxisModel VaxisModel.Gen VaxisModel.Model.Sgr VaxisModel.Model.SgrBytes VaxisModel.Model.SgrLinks VaxisModel.Model.SgrReader
@@ -162,5 +163,34 @@ theorem ext_bounds_safe :
       match r.2 with
       | [legacyMin, rgbMin, idxSkip, rgbSkip, _, _, _] => 3 ≤ legacyMin && 5 ≤ rgbMin && idxSkip + 1 ≤ legacyMin && rgbSkip + 1 ≤ rgbMin
       | _ => false) = true := by decide
+
+/-! ### … and the parser itself does not panic on the way (composition with C02's invariant) -/
+
+private theorem scan_no_parser_panic (cl : Str → Nat) : ∀ (fuel : Nat) (st : PState) (w : Str), VaxisModel.Props.C02.Inv st →
+    Item.seq .panic ∉ scan cl fuel st w
+  | 0, _, _, _ => by simp [scan]
+  | _ + 1, _, [], _ => by simp [scan]
+  | fuel + 1, st, r :: w, h => by
+    obtain ⟨h1, h2, _⟩ := VaxisModel.Props.C02.invariant_step st h (.rune r)
+    have hst := h1 rfl
+    unfold scan
+    simp only
+    split
+    · intro hm
+      rcases List.mem_cons.mp hm with he | hm
+      · cases he
+      · exact scan_no_parser_panic cl fuel _ _ hst hm
+    · intro hm
+      rcases List.mem_append.mp hm with hm | hm
+      · obtain ⟨y, hy, he⟩ := List.mem_map.mp hm
+        cases he
+        exact h2 hy
+      · exact scan_no_parser_panic cl fuel _ _ hst hm
+
+/-- **No panic anywhere on the way of `ParseStyledString`, for every string**: the parser model never emits its `panic` item
+    (C02's invariant: the unguarded `p.exit()` is never a nil call) and `parseSGR` returns on every parameter list it is handed. -/
+theorem sgr_total_parseStyled_bytes_parser (cl : Str → Nat) (s : Str) :
+    Item.seq .panic ∉ tokenize cl s ∧ ∃ cs, parseStyledB cl s = .ok cs :=
+  ⟨scan_no_parser_panic cl _ _ _ VaxisModel.Props.C02.inv_init, sgr_total_parseStyled_bytes cl s⟩
 
 end VaxisModel.Props.C18Total
